@@ -115,6 +115,10 @@ func c03Run(c *mon.Ctx, unit int) {
 				continue
 			}
 		}
+		if !built.ok && s.Legal && built.check.Panic == "" {
+			c.Violate("legal", c03Case{sp, ""}, "accept", built.check.String(), "Check refuses a schema that is legal by construction (allOf / array-union / key-diamond motif)")
+			continue
+		}
 		if !built.ok {
 			c.Count("generated graph rejected by Check (skipped)", 1)
 			c.Count(fmt.Sprintf("skipped: check code %d", built.check.Code), 1)
@@ -228,6 +232,11 @@ func init() {
 				var cs c03Case
 				json.Unmarshal(raw, &cs)
 				return lib.Validate(cs.Spec, cs.Doc).Verdict()
+			},
+			"legal": func(raw json.RawMessage) string {
+				var cs c03Case
+				json.Unmarshal(raw, &cs)
+				return lib.Check(cs.Spec).String()
 			},
 			"nested": func(raw json.RawMessage) string {
 				var cs c03Case
